@@ -69,6 +69,7 @@ structure CrashDrv where
   steps : List StepRec := []      -- oldest first
   vals : List ((Bytes × Nat) × CEnt) := []   -- every committed entry by (key, version)
   opened : Bool := false
+  roDigest : Option String := none
 
 def toks (as : List (List FsOp)) : String := String.intercalate " " (as.map atomTok)
 
@@ -115,22 +116,26 @@ def dedupSorted : List CEnt → List CEnt
   | a :: b :: rest => if a.key = b.key ∧ a.ver = b.ver then dedupSorted (b :: rest) else a :: dedupSorted (b :: rest)
   | l => l
 
-def canonEnts (es : List CEnt) : String :=
+def canonEntsR (readable : CEnt → Bool) (es : List CEnt) : String :=
   String.join ((dedupSorted (es.mergeSort entLe)).map (fun e =>
-    s!"{toHex e.key}@{e.ver}:{if e.del then 1 else 0}:{toHex e.val};"))
+    s!"{toHex e.key}@{e.ver}:{if e.del then 1 else 0}:{if readable e then toHex e.val else "!"};"))
+
+def canonEnts (es : List CEnt) : String := canonEntsR (fun _ => true) es
+
+def digestOf (r : RState) : String :=
+  let es := dedupSorted (r.entries.mergeSort entLe)
+  s!"ok next={r.nextTxnTs} n={es.length} h={hex64 (fnv64 (canonEntsR r.readable r.entries))}"
 
 def recoverLine (fs : Fs) : String :=
   match recover false (crashKill fs) with
-  | .ok r =>
-    let es := dedupSorted (r.entries.mergeSort entLe)
-    s!"ok next={r.nextTxnTs} n={es.length} h={hex64 (fnv64 (canonEnts r.entries))}"
+  | .ok r => digestOf r
   | .error e => "err:" ++ e.str
 
 /-! ## close / reopen -/
 
 /-- `DB.close`: flush (or drop) the active memtable, close the value log (msync, truncate the
     newest file to its write offset), close the tables (msync), fsync the directories. -/
-def closeAtoms (m : MState) : MState × List (List FsOp) :=
+def closeAtoms (m : MState) : MState × List (List FsOp) × List (List FsOp) :=
   let p := m.p
   let (m1, a1) :=
     if (p.memEnts p.cur).isEmpty then
@@ -146,7 +151,7 @@ def closeAtoms (m : MState) : MState × List (List FsOp) :=
     if fid = vmax then [FsOp.sync (.vlog fid), .truncate (.vlog fid) f.chunks.length] else [FsOp.sync (.vlog fid)])
   let tAtoms := (img.ssts.filter (fun x => (aget x.1 m1.p.tset).isSome)).map (fun (id, _) => [FsOp.sync (.sst id)])
   let rest := vAtoms ++ tAtoms ++ [[.syncDir], [.syncDir]]
-  ({ m1 with fs := m1.fs.run rest.flatten }, a1 ++ rest)
+  ({ m1 with fs := m1.fs.run rest.flatten }, a1, rest)
 
 def closeTok (a : List FsOp) : String :=
   match a with
@@ -218,9 +223,9 @@ def crashStep (d : CrashDrv) (line : String) : CrashDrv × String :=
     ({ d with steps := d.steps ++ [{ fs0 := d.m.fs, w := [], f := [] }] }, "none")
   | ["close"] =>
     let fs0 := d.m.fs
-    let (m1, a) := closeAtoms d.m
-    ({ d with m := m1, steps := d.steps ++ [{ fs0 := fs0, w := a, f := [] }] },
-     "S: " ++ String.intercalate " " (a.map closeTok))
+    let (m1, a1, a2) := closeAtoms d.m
+    ({ d with m := m1, steps := d.steps ++ [{ fs0 := fs0, w := a1 ++ a2, f := [] }] },
+     "S: " ++ String.intercalate " " (a1.map atomTok ++ a2.map closeTok))
   | ["open"] =>
     let fs0 := d.m.fs
     match recover false (crashKill fs0) with
@@ -249,6 +254,56 @@ def crashStep (d : CrashDrv) (line : String) : CrashDrv × String :=
         let (a', b') := if isF then (a, b - 1) else (a - 1, b)
         let atom := if isF then sr.f.getD (b - 1) [] else sr.w.getD (a - 1) []
         (d, recoverLine (sr.fs0.run ((sr.w.take a').flatten ++ (sr.f.take b').flatten ++ atom.take 1)))
+  | ["open-ro"] =>
+    match recover true (crashKill d.m.fs) with
+    | .error e => (d, "err:open:" ++ e.str)
+    | .ok r =>
+      let w := atomize r.ops
+      let dg := digestOf r
+      ({ d with steps := d.steps ++ [{ fs0 := d.m.fs, w := w, f := [] }], roDigest := some dg,
+                m := { d.m with fs := d.m.fs.run r.ops } },
+       s!"W: {toks w} | F: ")
+  | ["close-ro"] =>
+    let img := crashKill d.m.fs
+    let vAtoms := img.vlogs.map (fun (fid, _) => [FsOp.sync (.vlog fid)])
+    let tAtoms := (img.ssts.filter (fun x => (aget x.1 d.m.p.tset).isSome)).map (fun (id, _) => [FsOp.sync (.sst id)])
+    let a := vAtoms ++ tAtoms ++ [[.syncDir], [.syncDir]]
+    ({ d with steps := d.steps ++ [{ fs0 := d.m.fs, w := a, f := [] }], m := { d.m with fs := d.m.fs.run a.flatten } },
+     "S: " ++ String.intercalate " " (a.map closeTok))
+  | ["dump"] =>
+    match d.roDigest with
+    | some dg => ({ d with roDigest := none }, dg)
+    | none =>
+      let es := dedupSorted (d.m.p.lsmEnts.mergeSort entLe)
+      (d, s!"ok next={d.m.p.nextTs} n={es.length} h={hex64 (fnv64 (canonEnts d.m.p.lsmEnts))}")
+  | "power" :: rest =>
+    let kv := kvArgsC rest
+    let s := argNatC kv "step" 0
+    let a := argNatC kv "w" 0
+    let b := argNatC kv "f" 0
+    match d.steps[s]? with
+    | none => (d, "bad-op")
+    | some sr =>
+      let fs := sr.fs0.run ((sr.w.take a).flatten ++ (sr.f.take b).flatten)
+      let items := (argStrC kv "lost").splitOn ","
+      let pathOf (t : String) : Option Path :=
+        if t.startsWith "mem" then (t.drop 3).toNat?.map Path.mem
+        else if t.startsWith "vlog" then (t.drop 4).toNat?.map Path.vlog
+        else if t.startsWith "sst" then (t.drop 3).toNat?.map Path.sst
+        else if t == "MANIFEST" then some .manifest
+        else if t == "MANIFEST-REWRITE" then some .manifestRewrite
+        else if t == "KEYREGISTRY" then some .keyRegistry
+        else if t == "REWRITE-KEYREGISTRY" then some .keyRegistryRewrite
+        else none
+      let lostEntries := items.filterMap (fun it => if it.startsWith "entry:" then pathOf (it.drop 6).toString else none)
+      let lostDataP := items.filterMap (fun it => if it.startsWith "data:" then pathOf (it.drop 5).toString else none)
+      -- a data item names the file by its volatile name, or by its durable name when it has
+      -- been unlinked already
+      let lostInos := lostDataP.filterMap (fun p => match aget p fs.dir with | some i => some i | none => aget p fs.ddir)
+      let img := crashPowerWith fs (fun p => !lostEntries.contains p) (fun i => !lostInos.contains i)
+      (d, match recover false img with
+        | .ok r => digestOf r
+        | .error e => "err:" ++ e.str)
   | _ => (d, "bad-op")
 
 end Badger.Driver
